@@ -273,7 +273,7 @@ Proof.
   - intros [H|[H _]]; auto.
   - intros [H|H]; [now left|]. destruct (String.eqb a x) eqn:E.
     + apply String.eqb_eq in E. now left.
-    + right. split; [exact H | now rewrite E].
+    + right. split; [exact H | reflexivity].
 Qed.
 
 Lemma names_In ty n stores :
@@ -456,7 +456,7 @@ Proof.
   - exists st. destruct (st_action st) eqn:Ea.
     1,2: assert (Hn : st_action st <> SkipLevel) by congruence;
          rewrite (model_auth i st Es Hn) in H; inversion H; auto.
-    unfold sel in Es. unfold model in H. rewrite Es, Ea in H. discriminate.
+    unfold sel in Es. unfold model in H. Show. rewrite Es, Ea in H. discriminate.
   - unfold sel in Es. unfold model in H. rewrite Es in H. discriminate.
 Qed.
 
